@@ -179,6 +179,7 @@ def run():
         c.evaluations += len(tests)
         # ---- model: states before / after the interrupted call, and their continuations
         M = Proc(build_model(), big_stack=True)
+        refs = {}
         for t in tests:
             c.count('point:' + t['point'])
             rep = t['lines'] + ['# after the kill:'] + t['after']
@@ -212,15 +213,27 @@ def run():
             ops, k = t['ops'], t['k']
             pre = [Runner.op_line(o) for o in ops[:k]]
             opl = Runner.op_line(ops[k])
-            def model_run(with_op):
-                ml = ['NEW x %s' % (','.join(t['tables']) or '-')] + pre + ([opl] if with_op else []) + t['bat'] + t['cont'] + t['bat']
-                mo = M.run(ml)[1 + len(pre) + (1 if with_op else 0):]
+            def ref_run(exe, with_op, tag):
+                """the uninterrupted run: battery, continuation, battery — on the real code (reference
+                for 'completely or not at all') and on the model (correspondence)"""
+                d = os.path.join(base, 'ref-%d-%s' % (id(t), tag))
+                ml = ['NEW %s %s' % (d, ','.join(t['tables']) or '-')] + pre + ([opl] if with_op else []) + t['bat'] + t['cont'] + t['bat'] + ['RMD']
+                mo = exe.run(ml)[1 + len(pre) + (1 if with_op else 0):]
                 b1 = [norm(l, r) for l, r in zip(t['bat'], mo[:nb])]
                 cc = [r.split(' ')[0] if l.startswith('STO') else norm(l, r) for l, r in zip(t['cont'], mo[nb:nb + nc])]
                 b2 = [norm(l, r) for l, r in zip(t['bat'], mo[nb + nc:2 * nb + nc])]
                 return b1, cc, b2
-            A = model_run(False)
-            B = model_run(True)
+            key = (t['h'], k)
+            if key not in refs:
+                refs[key] = (ref_run(c.worker, False, 'a'), ref_run(c.worker, True, 'b'), ref_run(M, False, 'ma'), ref_run(M, True, 'mb'))
+                # correspondence of the uninterrupted states (lookups, markers, counts; queries are C05's business)
+                for which, wi, mi in (('before', 0, 2), ('after', 1, 3)):
+                    for l, x, y in zip(t['bat'], refs[key][wi][0], refs[key][mi][0]):
+                        if x != y and not l.startswith('FND') and not (l.startswith('OFF') and y == 'unknown'):
+                            c.violation('corr', 'state %s the interrupted call: %s: impl %s model %s' % (which, l[:30], x[:40], y[:40]),
+                                        ['NEW x -'] + pre + ([opl] if which == 'after' else []) + [l], found=False)
+                            break
+            A, B = refs[key][0], refs[key][1]
             # OFF lines: offsets of completed stores must read back; the model's 'unknown' for orphan offsets is not compared
             def same(x, y):
                 return all(a == b or (l.startswith('OFF') and b == 'unknown') for l, a, b in zip(t['bat'], x, y))
